@@ -47,7 +47,8 @@ def _point_box(q, s):
     n[i] = sg[i]
     c = q.copy()
     c[i] = sg[i] * s[i]
-    return float(e[i]), (n if tie > 0 and q[i] != 0 else None), c, float(tie)
+    tie = min(float(tie), 2 * abs(float(q[i])))          # other axes, and the opposite face of the same axis
+    return float(e[i]), (n if tie > 0 else None), c, tie
 
 
 def _point_cyl(q, r, hh):
@@ -61,9 +62,9 @@ def _point_cyl(q, r, hh):
         n = (er * a if a > 0 else np.zeros(3)) + np.array([0, 0, sz * b])
         return d, n / d, d
     if dr > dz:
-        return dr, er, (dr - dz) if rho > 0 else 0.0
+        return dr, er, min(dr - dz, rho)
     if dz > dr:
-        return dz, np.array([0, 0, sz]), (dz - dr) if q[2] != 0 else 0.0
+        return dz, np.array([0, 0, sz]), min(dz - dr, 2 * abs(q[2]))
     return dz, None, 0.0
 
 
@@ -156,7 +157,10 @@ def sphere_cylinder(A, B):
     q = B.local(A.pos)
     d, nl, cond = _point_cyl(q, B.size[0], B.size[1])
     n = None if nl is None else -(B.R @ nl)
-    return _res(d - A.size[0], n, cond)
+    r = _res(d - A.size[0], n, cond)
+    # ncond ~ 0 with the sphere centre on the cylinder axis (radial direction undefined) or on the side/cap medial surface (tie)
+    r["degenerate_axis"] = bool(math.hypot(q[0], q[1]) <= 1e-12 * (B.size[0] + B.size[1]) and d < 0 and (math.hypot(q[0], q[1]) - B.size[0]) > (abs(q[2]) - B.size[1]))
+    return r
 
 
 # ---- capsule pairs --------------------------------------------------------------------------------------------------------
@@ -230,6 +234,7 @@ def box_box(A, B):
     N = np.concatenate([N, -N])
     w = A.h_many(N) + B.h_many(-N)
     i = int(np.argmin(w))
+    sat_sep = float(-w[i])                 # largest separation over the 15 axes (<= true distance when separated)
     if w[i] > 0:
         srt = np.sort(w)
         # ties between distinct directions make the normal non-unique
@@ -248,7 +253,9 @@ def box_box(A, B):
             s, t, D, _ = _seg_seg(p1, d1, p2, d2)
             if D < best:
                 best, bn = D, _unit((p2 + t * d2) - (p1 + s * d1))
-    return _res(best, bn, best)
+    r = _res(best, bn, best)
+    r["sat_sep"] = sat_sep
+    return r
 
 
 # ---- dispatch -------------------------------------------------------------------------------------------------------------
